@@ -538,6 +538,36 @@ func (m *Model) RunPathAPI(s *Sink, rule string) {
 	if nDirStores == 0 {
 		s.Undecided(rule, "textwire|stores of the template directory", "-", "no store into a configuration's TemplateDir found")
 	}
+	// what the walk found is what is loaded: between the walk and the table of programs no entry is taken out again (a
+	// filter on names applied afterwards — hidden files, backups — drops templates whose name merely looks special, and
+	// a broken file under such a name no longer fails the load)
+	{
+		nDel := 0
+		for _, fn := range fns {
+			if shortPkg(fnPkgPath(fn)) != "textwire" {
+				continue
+			}
+			for _, b := range fn.Blocks {
+				for _, in := range b.Instrs {
+					c, ok := in.(*ssa.Call)
+					if !ok {
+						continue
+					}
+					if bi, isB := c.Call.Value.(*ssa.Builtin); isB && bi.Name() == "delete" && len(c.Call.Args) == 2 {
+						if mp, isM := c.Call.Args[0].Type().Underlying().(*types.Map); isM {
+							if bt, isS := mp.Key().Underlying().(*types.Basic); isS && bt.Info()&types.IsString != 0 {
+								nDel++
+								s.Violation(rule, fmt.Sprintf("%s|no found file is dropped again", fnKey(fn)), m.InstrPos(c), "%s deletes an entry of a table keyed by name (%s) on the load path: a template file that was found is not loaded (and not checked) after all", fnKey(fn), valueDesc(c.Call.Args[0]))
+							}
+						}
+					}
+				}
+			}
+		}
+		if nDel == 0 {
+			s.OK(rule, "textwire|no found file is dropped again", "-", "no delete on a table keyed by name in the load and render functions of the root package")
+		}
+	}
 	// EvaluateFile == EvaluateString(content)
 	ef := m.PkgFunc("textwire", "EvaluateFile")
 	es := m.PkgFunc("textwire", "EvaluateString")
